@@ -432,6 +432,14 @@ def run_case(rec, case):
             if i > 0:
                 rec.count('reusable')
             idle_noops(rec, w, V)
+            if case.get('rereg') and i + 1 < len(case['cycles']):
+                # between two connections the application registers a
+                # disconnect handler of the other form on the same client
+                legacy = not legacy
+                w.cli.reregister_disconnect(legacy)
+                case['_handlers']['legacy_disconnect'] = \
+                    'switched between connections'
+                rec.count('handlers_reregistered')
     finally:
         w.teardown()
     if rec.evaluations % 157 == 1:
@@ -531,6 +539,8 @@ def plan(tier, seed):
             for _ in range(n3):
                 cases.append({'kind': kind, 'sched': sc, 'cycles': [
                     list(rng.choice(cells)) for _ in range(3)]})
+    for c in cases[::3]:
+        c['rereg'] = True
     rng.shuffle(cases)
     n = 16
     shards = [{'cases': cases[i::n]} for i in range(n)]
